@@ -651,6 +651,15 @@ func judgeLine(b *builtArch, ln LineSpec, strict bool) (v lineVerdict) {
 	if ln.Op == "r2v" && b.vtmBound() {
 		classes["r2v-vtm"] = true
 	}
+	// D1, tsp, m2rri-len and modelen have been repaired in /repo (see known_findings.json): those classes are
+	// judged like everything else and only labelled. Still excluded: getid64 (open finding) and r2v-vtm
+	// (out of domain: arch.Tag is only set by Write_verilog, never while a producer assembles).
+	for c := range classes {
+		lab("class:" + c)
+	}
+	for _, c := range []string{"D1", "tsp", "m2rri-len", "modelen"} {
+		delete(classes, c)
+	}
 	if !strict && len(classes) > 0 {
 		var cs []string
 		for c := range classes {
